@@ -16,8 +16,10 @@ from graphql import (
     InputValueDefinitionNode,
     IntValueNode,
     ListValueNode,
+    NameNode,
     NonNullTypeNode,
     NullValueNode,
+    ObjectFieldNode,
     ObjectValueNode,
     StringValueNode,
     Undefined,
@@ -113,6 +115,46 @@ def get_default_value_node(
         return None
 
 
+def coerce_default_value_node(
+    node: ConstValueNode, type_: CodegenInputFieldType
+) -> ConstValueNode:
+    """Give a default literal the shape of its type, as GraphQL input coercion would:
+    a single value for a list type becomes a one-item list, an Int literal for ID a string.
+    """
+    if isinstance(type_, GraphQLNonNull):
+        return coerce_default_value_node(node, type_.of_type)
+    if isinstance(node, NullValueNode):
+        return node
+    if isinstance(type_, GraphQLList):
+        items = node.values if isinstance(node, ListValueNode) else [node]
+        return ListValueNode(
+            values=tuple(coerce_default_value_node(v, type_.of_type) for v in items)
+        )
+    if isinstance(type_, GraphQLInputObjectType) and isinstance(node, ObjectValueNode):
+        return ObjectValueNode(
+            fields=tuple(
+                ObjectFieldNode(
+                    name=NameNode(value=f.name.value),
+                    value=(
+                        coerce_default_value_node(
+                            f.value, type_.fields[f.name.value].type
+                        )
+                        if f.name.value in type_.fields
+                        else f.value
+                    ),
+                )
+                for f in node.fields
+            )
+        )
+    if (
+        isinstance(type_, GraphQLScalarType)
+        and type_.name == "ID"
+        and isinstance(node, IntValueNode)
+    ):
+        return StringValueNode(value=node.value)
+    return node
+
+
 def parse_input_field_default_value(
     node: Optional[InputValueDefinitionNode],
     annotation: Annotation,
@@ -125,6 +167,10 @@ def parse_input_field_default_value(
         else get_default_value_node(field)
     )
     if default_value_node:
+        if field is not None:
+            default_value_node = coerce_default_value_node(
+                default_value_node, field.type
+            )
         return parse_input_const_value_node(
             node=default_value_node, field_type=field_type
         )
